@@ -516,17 +516,16 @@ def _schedules(chk):
             node = loader.find_def(PA, fn)
             pr = [n for n in ast.walk(node) if isinstance(n, ast.For) and isinstance(n.iter, ast.Call)
                   and getattr(n.iter.func, "id", "") == "prange"]
-            if len(pr) != 1:
-                raise Refuted("prange-structure", f"{fn}: {len(pr)} prange loops")
-            body = pr[0]
+            # every prange loop of the function is analysed; a function without prange is sequential (nothing to show)
             local_arrays, tid_names = set(), set()
-            for n in ast.walk(body):
-                if isinstance(n, ast.Assign) and len(n.targets) == 1 and isinstance(n.targets[0], ast.Name):
-                    v = n.value
-                    if isinstance(v, ast.Call) and isinstance(v.func, ast.Attribute) and v.func.attr in ("empty", "zeros"):
-                        local_arrays.add(n.targets[0].id)
-                    if isinstance(v, ast.Call) and getattr(v.func, "id", "") == "get_thread_id":
-                        tid_names.add(n.targets[0].id)
+            for body in pr:
+                for n in ast.walk(body):
+                    if isinstance(n, ast.Assign) and len(n.targets) == 1 and isinstance(n.targets[0], ast.Name):
+                        v = n.value
+                        if isinstance(v, ast.Call) and isinstance(v.func, ast.Attribute) and v.func.attr in ("empty", "zeros"):
+                            local_arrays.add(n.targets[0].id)
+                        if isinstance(v, ast.Call) and getattr(v.func, "id", "") == "get_thread_id":
+                            tid_names.add(n.targets[0].id)
             loads = {}
             store_bases = set()
             for n in ast.walk(node):
@@ -536,7 +535,7 @@ def _schedules(chk):
             for n in ast.walk(node):
                 if isinstance(n, ast.Name) and isinstance(n.ctx, ast.Load) and id(n) not in store_bases:
                     loads[n.id] = loads.get(n.id, 0) + 1
-            for n in ast.walk(body):
+            for n in [m for body in pr for m in ast.walk(body)]:
                 tgt = None
                 if isinstance(n, ast.Assign):
                     tgt = n.targets[0]
@@ -547,7 +546,7 @@ def _schedules(chk):
                     if nm in local_arrays:
                         continue
                     sl = tgt.slice
-                    first = sl.elts[0] if isinstance(sl, ast.Tuple) else None
+                    first = sl.elts[0] if isinstance(sl, ast.Tuple) else sl
                     if nm == "scratch" and isinstance(first, ast.Name) and first.id in tid_names:
                         continue
                     # shared store: must be dead (the name is never loaded except as the store target itself)
